@@ -152,7 +152,7 @@ impl Property for P {
                         }
                     }
                 }
-                Event::AfterOp { .. } => {}
+                Event::AfterOp { .. } | Event::Started { .. } => {}
             }
             Ok(())
         });
